@@ -1,5 +1,5 @@
 """what MANIFEST.json claims, per property"""
-SOURCE_COMMITS = ["586d1d8", "84b55ce", "952a903", "a66a89b", "c13e5b8", "004b113", "2d82274", "7e29eec", "332b038", "b0be7a7", "f814fba", "97e13b8", "cc98207", "b0cacf5", "f3ee904", "ecc3d1a", "dd10db0", "ecf9744", "02def81", "797f74d"]
+SOURCE_COMMITS = ["586d1d8", "84b55ce", "952a903", "a66a89b", "c13e5b8", "004b113", "2d82274", "7e29eec", "332b038", "b0be7a7", "f814fba", "97e13b8", "cc98207", "b0cacf5", "f3ee904", "ecc3d1a", "dd10db0", "ecf9744", "02def81", "797f74d", "13e90c6", "68b4952"]
 NOT_APPLICABLE = {}
 PROOF_NOTE = ("Trusted: Lean 4.33 kernel and the axioms printed per theorem (propext, Quot.sound, Classical.choice at most); the statements in lean/Proofs/Props; "
               "the hand-written model is validated against the C by differential execution (bounded by generator quality), not derived from it; "
